@@ -439,6 +439,11 @@ func NewWorldIn(dir, converterBin string, populate bool) (*World, error) {
 			if err := os.Symlink(converterBin, filepath.Join(w.ConvDir, "conv")); err != nil {
 				return nil, err
 			}
+			// a second converter (the same function under another name): streams then have output of one
+			// converter while another one still has them queued
+			if err := os.Symlink(converterBin, filepath.Join(w.ConvDir, "conv2")); err != nil {
+				return nil, err
+			}
 		}
 	}
 	if err := w.start(); err != nil {
